@@ -541,8 +541,13 @@ func runEngHistory(t *testing.T, self string, base string, seed int64, index int
 				r.emitProj(fmt.Sprintf("constant of %d: %d -> %d", l, old, t.K))
 			}
 		case c < 80: // helper module
-			r.p.HelperVer++
-			r.emitProj("helper version")
+			if rng.Intn(3) == 0 {
+				r.p.HelperOrder++
+				r.emitProj("helper: entries of an ordered dict swapped")
+			} else {
+				r.p.HelperVer++
+				r.emitProj("helper version")
+			}
 		case c < 84: // cosmetic (comment / whitespace): same environments
 			if l := r.pickTarget(false); l >= 0 {
 				r.p.Targets[l].Cosmetic++
